@@ -265,7 +265,7 @@ class Check(PropertyCheck):
                 flows = list(mio.FlowReader(_io.BytesIO(raw)).stream())
             except exceptions.FlowReadException as e:
                 return {"supported": supported, "rejected": True, "file_version": list(fv) if isinstance(fv, tuple) else fv,
-                        "n": 0, "types": [], "versions": [], "resave_equal": True, "digest": "rejected"}
+                        "n": 0, "types": [], "versions": [], "resave_equal": True, "digest": "rejected", "flows": []}
             states = [f.get_state() for f in flows]
             buf = _io.BytesIO(); w = mio.FlowWriter(buf)
             for f in flows: w.add(f)
@@ -275,7 +275,8 @@ class Check(PropertyCheck):
                     "n": len(flows), "types": sorted({type(f).__name__ for f in flows}),
                     "versions": sorted({s["version"] for s in states}),
                     "resave_equal": canon(states) == canon(again),
-                    "digest": digest(_strip_volatile(states))}
+                    "digest": digest(_strip_volatile(states)),
+                    "flows": sorted(digest(_strip_volatile([s_])) for s_ in states)}
         if k == "dumpmut":
             path = os.path.join(REPO, case["file"])
             rec = tnetstring.load(open(path, "rb"))
@@ -311,7 +312,7 @@ class Check(PropertyCheck):
                     return "rejected: " + str(e)[:120]
             ref = load(raw)
             got = load(b"".join(recs[i] for i in order))
-            return {"order": order, "ref": ref, "got": got}
+            return {"order": order, "ref": ref, "got": got, "golden": (self._golden().get(case["file"]) or {}).get("flows")}
         if k == "current":
             st = canon_out(case["state"])
             out = compat.migrate_flow(copy.deepcopy(st))
@@ -338,8 +339,11 @@ class Check(PropertyCheck):
                 got = [f.get_state() for f in mio.FlowReader(buf).stream()]
             except exceptions.FlowReadException as e:
                 return {"error": str(e)[:200]}
+            if variant == "sni-bytes":
+                # the only intended difference: format <= 10 stored raw bytes, which read as ASCII with \xNN for the rest
+                orig["client_conn"]["sni"] = bytes.fromhex(case["sni_hex"]).decode("ascii", "backslashreplace")
+                orig["server_conn"]["sni"] = bytes.fromhex(case["sni_hex"])[::-1].decode("ascii", "backslashreplace")
             diff = _diff(canon(orig), canon(got[0])) if len(got) == 1 else ["count=%d" % len(got)]
-            if variant: diff = []        # content intentionally differs from the current-format original
             # "re-saving migrated flows and loading them again reproduces the same state"
             resave = "ok"
             try:
@@ -434,7 +438,13 @@ class Check(PropertyCheck):
         elif k == "dumpperm":
             # "Every flow file written by a supported older mitmproxy version … loads into valid current flows": the same
             # records written in another admissible order (each websocket record after its handshake) are the same flows
-            if obs["got"] != obs["ref"]:
+            # the recorded per-flow digests of the shipped order (corpus/C38/golden_dumps.tbl) are the independent reference;
+            # the load of the shipped order in this very run is only a second opinion
+            if obs["golden"] is None: fails.append(f"{case['file']}: no golden per-flow digests recorded")
+            elif obs["got"] != obs["golden"]:
+                fails.append(f"{case['file']} with its records in the order {obs['order']} does not load as the recorded flows "
+                             f"({sum(1 for x in obs['got'] if x not in obs['golden']) if isinstance(obs['got'], list) else obs['got']} differ)")
+            elif obs["got"] != obs["ref"]:
                 fails.append(f"{case['file']} with its records in the order {obs['order']} loads as different flows than in the shipped order "
                              f"({len(obs['got']) if isinstance(obs['got'], list) else obs['got']} vs {len(obs['ref']) if isinstance(obs['ref'], list) else obs['ref']} flows; "
                              f"{sum(1 for x in obs['got'] if x not in obs['ref']) if isinstance(obs['got'], list) and isinstance(obs['ref'], list) else '?'} differ)")
@@ -497,7 +507,7 @@ class Check(PropertyCheck):
         if case["kind"] == "conv":
             return "none" if obs["out"] is None else "ok " + obs["out"]
         if case["kind"] == "dump":
-            return {"n": obs["n"], "types": obs["types"], "digest": obs["digest"]}
+            return {"n": obs["n"], "types": obs["types"], "digest": obs["digest"], "flows": obs["flows"]}
         return None
 
     def _golden(self):
